@@ -39,18 +39,32 @@ def compareStep (idx : Nat) (pre : World) (op : XOp) (wd : List (ValId × Coins)
   if out.isEmpty then return [s!"step {idx} ok"]
   return out
 
-partial def loop (h : IO.FS.Stream) (idx : Nat) : IO Unit := do
+/-- a query line refers to the observed post-state of the step before it -/
+def compareQuery (idx : Nat) (last : Option World) (line : String) : String :=
+  match last, (line.drop 2).toString.splitOn " | " with
+  | some w, [q, obs] =>
+    match answerQuery w (q.splitOn " ") with
+    | some m => if m = obs then s!"step {idx} qok" else s!"step {idx} diverge component=query model=[{q} -> {m}] impl=[{q} -> {obs}]"
+    | none => s!"step {idx} parse-error query: {q}"
+  | _, _ => s!"step {idx} parse-error query: {line}"
+
+partial def loop (h : IO.FS.Stream) (idx : Nat) (last : Option World := none) : IO Unit := do
   let l1 ← h.getLine
   if l1.isEmpty then return ()
   let l1 := l1.trimAscii.toString
   if l1.startsWith "#" || l1.isEmpty then
     IO.println l1
-    loop h idx
+    loop h idx last
+  else if l1.startsWith "Q " then
+    let r := compareQuery (idx - 1) last l1
+    if !r.endsWith "qok" then IO.println r
+    loop h idx last
   else
     let l2 := (← h.getLine).trimAscii.toString
     let l3 := (← h.getLine).trimAscii.toString
     let l4 := (← h.getLine).trimAscii.toString
-    match runP world l1, runP op l2, runP world l4 with
+    let postW := runP world l4
+    match runP world l1, runP op l2, postW with
     | .ok pre, .ok (o, wd), .ok post =>
       let obsRes := (l3.drop 2).toString
       for s in compareStep idx pre o wd obsRes post do IO.println s
@@ -58,7 +72,7 @@ partial def loop (h : IO.FS.Stream) (idx : Nat) : IO Unit := do
     | _, .error e, _ => IO.println s!"step {idx} parse-error op: {e}"
     | _, _, .error e => IO.println s!"step {idx} parse-error post: {e}"
     (← IO.getStdout).flush
-    loop h (idx + 1)
+    loop h (idx + 1) (match postW with | .ok post => some post | .error _ => none)
 
 def main : IO Unit := do
   loop (← IO.getStdin) 0
